@@ -28,6 +28,8 @@ BODY_TEXT = {"ok": None, "print": "@print %d", "assertfail": "@assert false", "g
 
 def def_text(d, body=None) -> str:
     body = body or d["body"]
+    if body in ("empty", "blank"):          # a file of zero bytes / of line breaks only
+        return "" if body == "empty" else "\n\n"
     lines = ["%s f%d" % (ref_text(r), k + 1) for k, r in enumerate(d["refs"])]
     bt = BODY_TEXT[body]
     if bt:
@@ -297,7 +299,7 @@ def worker(arg):
         closure = {idkey(i) for i in out["closure"]}
         outside = [d for d in case["defs"] if idkey(d) not in closure]
         for d in outside:
-            for body in ("garbage", "assertfail", "nomode", "print", "service", "badref"):
+            for body in ("garbage", "assertfail", "nomode", "print", "service", "badref", "empty", "blank"):
                 got2 = run_config(case, entry, override={idkey(d): body})
                 n += 1
                 if _strip(got2) != _strip(got):
